@@ -1040,8 +1040,12 @@ theorem run_lifted_eq_model (m : Metric) (k : AggKind) (meth : Method) (withMeth
 theorem src_accessor_calls (k : AggKind) (meth : Method) (withMethod : Bool) (t : Tables) (h : t.ncf = 0) :
     applyAggGot k meth withMethod t = .got .entry0 (applyAggModel k meth withMethod t) := by
   unfold applyAggGot applyAggModel
-  cases k <;> cases withMethod <;>
-    simp [AggCache.groupMinPub_eq, AggCache.groupMaxPub_eq, AggCache.differencePub_eq, AggCache.ratioPub_eq,
-      AggCache.documentedMode, h]
+  cases k <;> cases withMethod <;> cases meth <;>
+    simp [AggCache.groupMinPub, AggCache.groupMaxPub, AggCache.differencePub, AggCache.ratioPub, AggCache.cached,
+      AggCache.entryOf, AggCache.evalCall, AggCache.extractFails, PopulateSrc.populate, PopulateSrc.validErrors,
+      PopulateSrc.compareMethods, PopulateSrc.groupMinDefaultErrors, PopulateSrc.groupMaxDefaultErrors,
+      PopulateSrc.differenceDefaultMethod, PopulateSrc.differenceDefaultErrors, PopulateSrc.ratioDefaultMethod,
+      PopulateSrc.ratioDefaultErrors, PopulateSrc.groupMinSlot, PopulateSrc.groupMaxSlot, PopulateSrc.differenceSlot,
+      PopulateSrc.ratioSlot, FrameSrc.extract_result, h, groupMin, groupMax]
 
 end C03
